@@ -5,6 +5,7 @@ import os
 import tempfile
 import numpy as np
 from .runner import Component, exc_code, BUILD
+from . import pubapi
 
 PROP = "C18"
 RULE = ("one layout = (array 0x0..6x6 of string or int entries, object registry, extra agents or "
@@ -186,7 +187,7 @@ def impl_builders(inp):
         grid = L["Grid"](rows, cols)
         grid.reset()
         for r, c, a in layout_agents(arr, reg):
-            grid._internal[r, c][a.id] = a
+            grid[r, c][a.id] = a
         return Sim.build_sim_from_grid(grid, extra_agents=extras_py(extra))
     res.append(attempt(from_grid))
 
@@ -219,7 +220,7 @@ def impl_grid(inp):
         for r, row in enumerate(g):
             for c, cell in enumerate(row):
                 if cell[0] == 1:
-                    grid._internal[r, c] = {gid(k): mk_agent(i, enc, cls, (pr, pc) if hp else None)
+                    pubapi.cell_array(grid)[r, c] = {gid(k): mk_agent(i, enc, cls, (pr, pc) if hp else None)
                                             for k, i, enc, cls, hp, pr, pc in cell[1]}
         return L["Sim"].build_sim_from_grid(grid, extra_agents=extras_py(extra))
     return attempt(go)
